@@ -214,6 +214,19 @@ def correspond(ctx, corr):
                             corr.violate("frame:new", "new %s %s" % (tok(b), tok(d)), want, ans,
                                          "construction must accept exactly the numbers that fit the width")
                 corr.nontrivial(("new", ans.split()[0], ans.split()[1] if st == "err" else ""))
+                # "an iterable sequence of integers": the same bytes handed over as a one-shot iterator, a
+                # generator, a map object or a bytearray must build the same frame as the list does
+                if isinstance(d, (list, tuple, bytes)) and all(isinstance(x, int) and not isinstance(x, bool)
+                                                               and 0 <= x < 256 for x in d) and cls is fr.Frame:
+                    for form, mk in (("iter", lambda: iter(list(d))), ("generator", lambda: (x for x in list(d))),
+                                     ("map", lambda: map(int, list(d))), ("bytearray", lambda: bytearray(d)),
+                                     ("reversed", lambda: reversed(list(d)[::-1]))):
+                        st2, r2 = outcome(lambda: cls(b, mk()))
+                        ans2 = "ok %d %d" % (int(fbits(r2)), int(fdata(r2))) if st2 == "ok" else "err " + r2
+                        if ans2 != ans:
+                            corr.violate("frame:new-iterable", "new %s %s as %s" % (tok(b), tok(list(d)), form), ans, ans2,
+                                         "the same byte sequence must build the same frame whatever iterable carries it")
+                        corr.bump("new-iterable:" + form)
     run.flush(ctx)
 
     # ---- views: pack / pack_len / as_byte_sequence / str + direct oracle ----
@@ -337,7 +350,16 @@ def correspond(ctx, corr):
                 elif name == "contains":
                     r = bool(ops[0] in f)
                 elif name == "add":
-                    r = f + ops[0]
+                    if ctx.rng.random() < 0.3:
+                        # the augmented form: `g = f; g += other` must give the sum and leave f (an alias of
+                        # the left operand) exactly as it was
+                        # (the answer line below states f's width and contents after the operation)
+                        g = f
+                        g += ops[0]
+                        r = g
+                        corr.bump("hist:augmented-add")
+                    else:
+                        r = f + ops[0]
                 elif name == "eq":
                     r = bool(f == ops[0])
                 else:
